@@ -16,6 +16,7 @@ import Mathlib.Tactic.FieldSimp
 import Mathlib.Tactic.Linarith
 import Mathlib.Tactic.LinearCombination
 import Mathlib.Tactic.SplitIfs
+import Mathlib.Algebra.Order.Ring.Cast
 
 namespace Lbg.Lemmas
 open Lbg Lbg.Gen
@@ -275,5 +276,61 @@ theorem v3_smul_dot (k : α) (a b : V3 α) :
 /-- `|k·a|² = k²|a|²`. -/
 theorem v3_smul_normSq (k : α) (a : V3 α) : V3.normSq (V3.smul k a) = k * k * V3.normSq a := by
   unfold V3.smul V3.normSq; simp only []; ring
+
+/-! ### Python's float `%` (rendered by the translator as `x - floor (x / y) * y`) and swept angles -/
+
+/-- Under the floor law `floor t ≤ t < floor t + 1`, the remainder `x - floor (x/y)·y` lies in
+`[0, y)` for `0 < y`. -/
+theorem fmod_range (M : MathOps α) (hfl : ∀ x, M.floor x ≤ x ∧ x < M.floor x + 1)
+    {y : α} (hy : 0 < y) (x : α) :
+    0 ≤ x - M.floor (x / y) * y ∧ x - M.floor (x / y) * y < y := by
+  obtain ⟨h1, h2⟩ := hfl (x / y)
+  have h1' : M.floor (x / y) * y ≤ x := (le_div_iff₀ hy).mp h1
+  have h2' : x < (M.floor (x / y) + 1) * y := (div_lt_iff₀ hy).mp h2
+  constructor <;> linarith
+
+/-- Two numbers of `[0, P)` that differ by an integer multiple of `P` are equal. -/
+theorem eq_of_sub_eq_int_mul {P u v : α} {z : ℤ} (hP : 0 < P) (hu0 : 0 ≤ u) (hu : u < P)
+    (hv0 : 0 ≤ v) (hv : v < P) (h : u - v = (z : α) * P) : u = v := by
+  have h1 : (z : α) * P < 1 * P := by rw [← h]; linarith
+  have h2 : (-1 : α) * P < (z : α) * P := by rw [← h]; linarith
+  have z1 : (z : α) < 1 := lt_of_mul_lt_mul_right h1 hP.le
+  have z2 : (-1 : α) < (z : α) := lt_of_mul_lt_mul_right h2 hP.le
+  have z1' : z < 1 := by exact_mod_cast z1
+  have z2' : -1 < z := by exact_mod_cast z2
+  have hz : z = 0 := by omega
+  rw [hz, Int.cast_zero, zero_mul] at h
+  linarith
+
+/-- Counter-clockwise angle swept from `a1` to `a2` with period `P` (`Arc2D.angle`). -/
+def swept (P a1 a2 : α) : α := if ¬ (a2 < a1) then a2 - a1 else P + (a2 - a1)
+
+/-- The swept angle is unchanged when both end angles are shifted by the same amount and then
+reduced into `[0, P)` by integer multiples of the period — provided the original angles lie in
+`[0, P]` and are not the full circle `(0, P)`. -/
+theorem swept_shift {P a1 a2 b1 b2 θ : α} {n1 n2 : ℤ} (hP : 0 < P)
+    (ha1 : 0 ≤ a1 ∧ a1 ≤ P) (ha2 : 0 ≤ a2 ∧ a2 ≤ P) (hnc : ¬ (a1 = 0 ∧ a2 = P))
+    (hb1 : 0 ≤ b1 ∧ b1 < P) (hb2 : 0 ≤ b2 ∧ b2 < P)
+    (e1 : b1 = a1 + θ - (n1 : α) * P) (e2 : b2 = a2 + θ - (n2 : α) * P) :
+    swept P b1 b2 = swept P a1 a2 := by
+  have hlt : a2 - a1 < P := by
+    by_contra hge
+    have hge' : P ≤ a2 - a1 := not_lt.mp hge
+    exact hnc ⟨le_antisymm (by linarith) ha1.1, le_antisymm ha2.2 (by linarith)⟩
+  unfold swept
+  by_cases c1 : b2 < b1 <;> by_cases c2 : a2 < a1 <;>
+    simp only [c1, c2, not_true_eq_false, not_false_eq_true, if_true, if_false]
+  · refine eq_of_sub_eq_int_mul (z := n1 - n2) hP (by linarith) (by linarith)
+      (by linarith) (by linarith) ?_
+    rw [e1, e2]; push_cast; ring
+  · refine eq_of_sub_eq_int_mul (z := n1 - n2 + 1) hP (by linarith) (by linarith)
+      (by linarith [not_lt.mp c2]) hlt ?_
+    rw [e1, e2]; push_cast; ring
+  · refine eq_of_sub_eq_int_mul (z := n1 - n2 - 1) hP (by linarith [not_lt.mp c1]) (by linarith)
+      (by linarith) (by linarith) ?_
+    rw [e1, e2]; push_cast; ring
+  · refine eq_of_sub_eq_int_mul (z := n1 - n2) hP (by linarith [not_lt.mp c1]) (by linarith)
+      (by linarith [not_lt.mp c2]) hlt ?_
+    rw [e1, e2]; push_cast; ring
 
 end Lbg.Lemmas
